@@ -1,6 +1,7 @@
 package main
 
 import (
+	"os"
 	"fmt"
 	"go/constant"
 	"go/token"
@@ -353,11 +354,11 @@ func (c *Ctx) neverNilResult(r *ssa.Return) bool {
 			return true
 		}
 		n++
-		v := st.resolve(r.Results[0])
-		if !provablyNonNil(v, 2) {
-			if t, known := st.fact(v); !(known && t) {
-				ok = false
-			}
+		if !deepNonNil(st, r.Results[0], 3) {
+			ok = false
+		}
+		if os.Getenv("VERIF_DEBUG_NONNIL") != "" {
+			fmt.Fprintf(os.Stderr, "nonnil %s block %d joins %v -> %v (resolved %v)\n", fn.Name(), st.b.Index, st.joins, ok, st.resolveI(r.Results[0]))
 		}
 		return ok
 	}, nil)
@@ -367,7 +368,7 @@ func (c *Ctx) neverNilResult(r *ssa.Return) bool {
 func (c *Ctx) neverNilResultLocal(r *ssa.Return) bool {
 	v := stripConv2(r.Results[0])
 	if _, ok := v.(*ssa.MakeInterface); ok {
-		return true
+		return deepNonNil(pstate{}, v, 3)
 	}
 	phi, ok := v.(*ssa.Phi)
 	if !ok {
@@ -386,7 +387,7 @@ func (c *Ctx) neverNilResultLocal(r *ssa.Return) bool {
 	}
 	for i, e := range phi.Edges {
 		e = stripConv2(e)
-		if _, isMI := e.(*ssa.MakeInterface); isMI {
+		if _, isMI := e.(*ssa.MakeInterface); isMI && deepNonNil(pstate{}, e, 3) {
 			continue
 		}
 		if isNilConst(e) && errPhi != nil && nonNilOnEdge(errPhi.Edges[i], phi.Block().Preds[i], phi.Block()) {
@@ -706,6 +707,74 @@ func (c *Ctx) checkPromObservations(rule string) {
 			}
 			c.check(okDiv, rule+"-seconds", key, cv.Pos(), "duration converted to seconds (divided by float64(time.Second))",
 				"a time.Duration is converted to float64 without dividing by float64(time.Second): Prometheus receives nanoseconds where seconds are expected", c.describe(cv))
+		})
+	}
+	// the library's own conversion (DurationBuckets.AsValues, which produced the bounds the vector was
+	// registered with) is float64(d)/float64(time.Second); Duration.Seconds() and friends round
+	// differently (sec + nsec/1e9), so a bound replayed through them can fall one ulp above the
+	// registered bound and be counted in the next bucket
+	for _, fn := range c.funcsOfPkg(pk) {
+		instrsOf(fn, func(in ssa.Instruction) {
+			call, ok := in.(*ssa.Call)
+			if !ok {
+				return
+			}
+			g := staticCallee(call)
+			if g == nil || g.Pkg == nil || g.Pkg.Pkg.Path() != "time" || g.Signature.Recv() == nil {
+				return
+			}
+			if rn, isN := g.Signature.Recv().Type().(*types.Named); !isN || rn.Obj().Name() != "Duration" {
+				return
+			}
+			switch g.Name() {
+			case "Seconds", "Minutes", "Hours", "Milliseconds", "Microseconds", "Nanoseconds":
+			default:
+				return
+			}
+			// does the result reach an observation or a stored bound?
+			seen := map[ssa.Value]bool{}
+			var sink ssa.Instruction
+			var follow func(v ssa.Value, depth int)
+			follow = func(v ssa.Value, depth int) {
+				if depth == 0 || seen[v] || v.Referrers() == nil || sink != nil {
+					return
+				}
+				seen[v] = true
+				for _, r := range *v.Referrers() {
+					switch x := r.(type) {
+					case *ssa.Convert:
+						follow(x, depth-1)
+					case *ssa.BinOp:
+						follow(x, depth-1)
+					case *ssa.Phi:
+						follow(x, depth-1)
+					case *ssa.MakeInterface:
+						follow(x, depth-1)
+					case *ssa.Store:
+						if x.Val == v {
+							if _, isFA := x.Addr.(*ssa.FieldAddr); isFA {
+								sink = x
+							}
+							if _, isIA := x.Addr.(*ssa.IndexAddr); isIA {
+								sink = x
+							}
+						}
+					case ssa.CallInstruction:
+						com := x.Common()
+						if com.IsInvoke() && com.Method.Name() == "Observe" {
+							sink = r
+						} else if h := com.StaticCallee(); h != nil && h.Name() == "Observe" {
+							sink = r
+						}
+					}
+				}
+			}
+			follow(call, 5)
+			if sink != nil {
+				n++
+				c.sawFunc(c.fnKey(fn))
+				c.bad(rule+"-seconds", c.fnKey(fn)+":"+g.Name(), in.Pos(), "a duration is converted with Duration."+g.Name()+"() on its way to a Prometheus observation or bucket bound, while the bounds the vector was registered with come from float64(d)/float64(time.Second) (DurationBuckets.AsValues): the two round differently, so a sample replayed at a bucket's upper bound can land in the next bucket and the cumulative counts come up short", c.describe(in), "reaches: "+c.describe(sink))
+			}
 		})
 	}
 	c.floor(rule+"-seconds", n, 2)
